@@ -187,7 +187,8 @@ Section Reference.
   (* prefix NLRI decoder: withdraw, addpath, afi, safi, bytes -> route and remaining bytes (C15) *)
   Variable nd : bool -> bool -> Z -> Z -> list Z -> option (N * list Z).
 
-  Record rsess := mkRS { rs_asn4 : bool; rs_fams : list (Z * Z); rs_addpath : list (Z * Z) }.
+  (* rs_extnh: the <AFI, SAFI> for which an IPv6 next hop was negotiated (RFC 8950 capability, next hop AFI 2) *)
+  Record rsess := mkRS { rs_asn4 : bool; rs_fams : list (Z * Z); rs_addpath : list (Z * Z); rs_extnh : list (Z * Z) }.
 
   Definition has_fam (l : list (Z * Z)) (afi safi : Z) : bool :=
     existsb (fun p => (fst p =? afi) && (snd p =? safi)) l.
@@ -215,10 +216,15 @@ Section Reference.
 
   Inductive rres := RUpdate (u : rupdate) | REor (afi safi : Z).
 
-  (* next hop lengths per family: RFC 4760 / 4364 / 4659 / 8277 (a link-local address may follow a global IPv6 one) *)
-  Definition nh_len_ok (afi safi len : Z) : bool :=
-    if safi =? 128 then (if afi =? 1 then len =? 12 else (len =? 24) || (len =? 40))
-    else if afi =? 1 then len =? 4 else (len =? 16) || (len =? 32).
+  (* Length of Next Hop Network Address per <AFI, SAFI>: RFC 4760 3 (IPv4: 4; IPv6: 16, or 32 with a link-local
+     address), RFC 4364 4.3.2 / 4659 3.2.1 (VPN: an 8-octet zero RD in front of each address: 12; 24 or 48),
+     RFC 8277; RFC 8950 3: an IPv4 family may carry an IPv6 next hop (16 / 32; VPN 24 / 48) only when the
+     capability was exchanged for that <AFI, SAFI>.  An IPv6 family never carries an IPv4 next hop. *)
+  Definition nh_len_ok (afi safi : Z) (ext : bool) (len : Z) : bool :=
+    if safi =? 128 then
+      (if afi =? 1 then (len =? 12) || (ext && ((len =? 24) || (len =? 48))) else (len =? 24) || (len =? 48))
+    else
+      (if afi =? 1 then (len =? 4) || (ext && ((len =? 16) || (len =? 32))) else (len =? 16) || (len =? 32)).
 
   (* RFC 4760 section 3: AFI, SAFI, next hop length, next hop, reserved octet, NLRI *)
   Definition mp_reach (s : rsess) (v : list Z) : option (list (N * list Z)) :=
@@ -226,7 +232,7 @@ Section Reference.
     | a1 :: a0 :: safi :: nhl :: rest =>
       let afi := a1 * 256 + a0 in
       if negb (has_fam (rs_fams s) afi safi) then None else
-      if negb (nh_len_ok afi safi nhl) then None else
+      if negb (nh_len_ok afi safi (has_fam (rs_extnh s) afi safi) nhl) then None else
       if blen rest <? nhl + 1 then None else
       let nhf := firstn (Z.to_nat nhl) rest in
       let rdlen := if safi =? 128 then 8%nat else 0%nat in
@@ -286,10 +292,30 @@ Section Reference.
        | None => f_optional (r_flags r)
        end.
 
+  (* RFC 4760 3 / RFC 7606 7.11: the framing of MP_REACH_NLRI (the syntax of the NLRI inside is not judged here;
+     the reserved octet is ignored on receipt) *)
+  Definition mp_reach_malformed (s : rsess) (v : list Z) : bool :=
+    match v with
+    | a1 :: a0 :: safi :: nhl :: rest =>
+      let afi := a1 * 256 + a0 in
+      negb (has_fam (rs_fams s) afi safi)
+      || negb (nh_len_ok afi safi (has_fam (rs_extnh s) afi safi) nhl)
+      || (blen rest <? nhl + 1)
+      || negb (forallb (Z.eqb 0) (firstn (if safi =? 128 then 8%nat else 0%nat) rest))
+    | _ => true
+    end.
+  Definition mp_unreach_malformed (s : rsess) (v : list Z) : bool :=
+    match v with
+    | a1 :: a0 :: safi :: _ => negb (has_fam (rs_fams s) (a1 * 256 + a0) safi)
+    | _ => true
+    end.
+
   (* RFC 7606: is this attribute of the block malformed, and the approach its type calls for *)
   Definition attr_malformed (other : Z -> list Z -> bool) (s : rsess) (r : raw) : bool :=
     match category_of (r_code r) with
     | Some _ => flags_conflict (r_code r) (r_flags r) || value_malformed other (rs_asn4 s) (r_code r) (r_val r)
+                || ((r_code r =? 14) && mp_reach_malformed s (r_val r))
+                || ((r_code r =? 15) && mp_unreach_malformed s (r_val r))
     | None => false
     end.
 
